@@ -111,17 +111,18 @@ def cpyBody (cfg : Cfg) (bounded : Bool) (dest dmax src slen : Nat) : Prog Nat :
   if dest < src then copyLoop cfg true bounded src dest dmax dmax dest src slen
   else copyLoop cfg false bounded dest dest dmax dmax dest src slen
 
-/-- **the body of the four copies, any placement with `src ≠ dest`** (`g` = pointer distance) -/
+/-- **the body of the four copies, any placement** (`g` = pointer distance; `g = 0`: identical pointers, which only the
+bounded copies let through to the loop) -/
 theorem cpyBody_cases (cfg : Cfg) (bounded : Bool) (dest dmax src m g slen : Nat) (st : St)
     (hall : ∀ a, st.mapped a = true ∧ st.rd a = true)
     (hpos : 0 < dmax) (hrw : RW st dest dmax)
-    (hg : 0 < g ∧ ((dest < src ∧ src = dest + g) ∨ (src < dest ∧ dest = src + g)))
+    (hg : (dest < src ∧ src = dest + g) ∨ (src ≤ dest ∧ dest = src + g))
     (hnz : ∀ j, j < m → st.data (src+j) ≠ 0)
     (hfin : ((bounded = true → m < slen) ∧ st.data (src+m) = 0) ∨ (bounded = true ∧ slen = m)) :
     ∃ code st', exec (cpyBody cfg bounded dest dmax src slen) st = .ok (code, st') ∧
       CopyAll cfg dest dmax dest dmax src m g st st' code := by
   unfold cpyBody
-  rcases hg.2 with ⟨hlt, he⟩ | ⟨hlt, he⟩
+  rcases hg with ⟨hlt, he⟩ | ⟨hlt, he⟩
   · rw [if_pos hlt]
     exact copyLoop_cases cfg true bounded src dest dmax hpos dmax dest src m g slen st hall hrw ⟨Nat.le_refl _, rfl⟩
       (Or.inl ⟨rfl, he, rfl⟩) hnz hfin
